@@ -155,6 +155,11 @@ def exotic_cases():
                            ('en', 'pub enum Ty {{ A({A0}u8, u8, {A1}u8), B {{ {A0}x: u8, y: u8, {A1}z: u8 }} }}')):
                 src = '#[derive(Educe)]\n#[educe(%s)]\n%s\n' % (tl, it.format(A0='#[educe(%s(%s))] ' % (carrier, r0), A1='#[educe(%s(%s))] ' % (carrier, r1)))
                 out.append(Case('C01|rank-extremes|%s|%s|%d' % (carrier, ik, k), src, {'item': ik, 'ranks': [r0, r1]}, expect='accept', run=False, depth=2))
+    # generic parameters in unconventional case on an item that allows the naming lints for itself (as the std derives do, the generated impls should inherit that)
+    for ik, it in (('struct', 'pub struct Ty<param, const len_q: usize> { pub a: [param; len_q] }'), ('enum', 'pub enum Ty<param, const len_q: usize> { A(param), B { x: [u8; len_q] } }')):
+        for sk, tl in (('Debug', 'Debug'), ('Clone', 'Clone'), ('PartialEq', 'PartialEq, Eq'), ('Ord', 'PartialEq, Eq, PartialOrd, Ord'), ('Hash', 'Hash')):
+            src = ('#[warn(non_camel_case_types, non_upper_case_globals)]\npub mod w {\n    use educe::Educe;\n    #[allow(non_camel_case_types, non_upper_case_globals)]\n    #[derive(Educe)]\n    #[educe(%s)]\n    %s\n}\n' % (tl, it))
+            out.append(Case('C01|param-case|%s|%s' % (ik, sk), src, {'item': ik, 'traits': tl, 'lints': 'allowed on the item, warn in the enclosing module'}, expect='accept', run=False, depth=2))
     # dynamically sized structs (the last field has a `?Sized` type): every trait that does not need `Self: Sized`, with the attribute forms that touch the tail
     un_items = {
         'generic': 'pub struct Ty<T: ?Sized> {{ {A0}pub a: u8, {A1}pub tail: T }}',
@@ -319,6 +324,9 @@ def check(v, tier):
                 return d['kind'] == 'hand' and d['code'] in ('non_snake_case', 'non_camel_case_types', 'non_upper_case_globals', 'unused_variables', 'unused_mut', 'unused_assignments') \
                     and bool(names) and not re.search(r'(?<![A-Za-z0-9_])%s(?![A-Za-z0-9_])' % re.escape(names[0]), c.body)
             gw = [d for d in r.warnings() if about_generated(d) and d['code'] != 'unpredictable_function_pointer_comparisons']
+            if c.key.startswith('C01|param-case|'):
+                # the item allows the naming lints for itself: whatever still warns about its parameter names comes from the generated impl headers
+                gw += [d for d in r.warnings() if d not in gw and d['code'] in ('non_camel_case_types', 'non_upper_case_globals')]
             if gw:
                 v.violation(c, 'the generated code compiles with warnings: %s' % '; '.join((d['code'] or '') + ' ' + d['msg'][:200] for d in gw[:2]))
             else:
